@@ -336,14 +336,25 @@ def rule_E3(ctx):
                 tgt, val = x.targets[0].id, x.value
             elif isinstance(x, ast.AnnAssign) and isinstance(x.target, ast.Name) and x.value is not None:
                 tgt, val = x.target.id, x.value
-            if tgt and isinstance(val, ast.IfExp) and ast.unparse(val.test) in (f'{P} is None', f'{P} is not None'):
-                opt_side = val.body if ast.unparse(val.test) == f'{P} is None' else val.orelse
-                if 'options.bytealigned' in ast.unparse(opt_side):
+            if tgt and isinstance(val, ast.IfExp):
+                pt, pbody, pelse = G.pos_if(val)
+                if ast.unparse(pt) == f'{P} is None' and 'options.bytealigned' in ast.unparse(pbody) and ast.unparse(pelse) == P:
                     clean.add(tgt)
-            if isinstance(x, ast.If) and ast.unparse(x.test) == f'{P} is None':
-                for s in x.body:
-                    if isinstance(s, ast.Assign) and ast.unparse(s.targets[0]) == P and 'options.bytealigned' in ast.unparse(s.value):
-                        clean.add(f'{P}@' + str(x.lineno))
+            if isinstance(x, ast.If):
+                pt, pbody, pelse = G.pos_if(x)
+                if ast.unparse(pt) == f'{P} is None':
+                    for s in pbody:
+                        if isinstance(s, ast.Assign) and ast.unparse(s.targets[0]) == P and 'options.bytealigned' in ast.unparse(s.value):
+                            clean.add(f'{P}@' + str(x.lineno))
+                    # statement form of the conditional expression: if P is None: t = options.bytealigned else: t = P
+                    ta = [s for s in pbody if isinstance(s, ast.Assign) and len(s.targets) == 1 and isinstance(s.targets[0], ast.Name)
+                          and 'options.bytealigned' in ast.unparse(s.value)]
+                    tb = [s for s in pelse if isinstance(s, ast.Assign) and len(s.targets) == 1 and isinstance(s.targets[0], ast.Name) and ast.unparse(s.value) == P]
+                    if ta and tb and ta[0].targets[0].id == tb[0].targets[0].id:
+                        if ta[0].targets[0].id == P:
+                            clean.add(f'{P}@' + str(x.lineno))
+                        else:
+                            clean.add(ta[0].targets[0].id)
         resolved_in_place = [int(c2.split('@')[1]) for c2 in clean if c2.startswith(f'{P}@')]
         bad = None
         for cs in fa.calls:
